@@ -15,6 +15,7 @@ import (
 	"compress/gzip"
 	"encoding/binary"
 	"encoding/hex"
+	"errors"
 	"fmt"
 	"hash/fnv"
 	"io"
@@ -386,6 +387,36 @@ func runC15(c *Ctx) {
 				return fmt.Sprintf("%d %s", len(rb), c15flatAll(rb, false))
 			})
 			c.Emit("c15.holds.splatply", strings.TrimSpace(fmt.Sprintf("%d %s %s", n, c15flatAll(recs, false), ans2)), "true")
+		}
+
+		// --- histories with failing destinations: after a Write whose io.Writer returned an error (after k bytes), the next
+		// ordinary Write must be byte-identical to what it was before the failure (= a fresh process's, = the model's) -----
+		if n > 0 && k%3 == 0 {
+			before := &bytes.Buffer{}
+			if splat.Write(before, cloud) == nil {
+				other := make([]c15splatRec, 1+c.Rng.Intn(4))
+				for i := range other {
+					other[i] = c.c15splat()
+				}
+				total := 32 * len(other)
+				limits := []int{0, 1, 31, 32, 33, 32*len(other) - 1, c.Rng.Intn(total + 1), total}
+				lim := limits[(k/3)%len(limits)]
+				if lim < 0 {
+					lim = 0
+				}
+				fw := &c15failWriter{limit: lim}
+				ferr := splat.Write(fw, c15cloud(other, modeling.PointTopology, ""))
+				after := &bytes.Buffer{}
+				aerr := splat.Write(after, cloud)
+				c.Note(fmt.Sprintf("c15.write.after-failure.limit-%s", map[bool]string{true: "short", false: "enough"}[lim < total]))
+				ans := "err"
+				if aerr == nil {
+					ans = "ok " + c15hex(after.Bytes())
+				}
+				c.Emit("c15.splat.write", fmt.Sprintf("1 1 %d %s", n, c15flatAll(recs, true)), ans)
+				c.Emit("c15.holds.write_after_failure", fmt.Sprintf("%d %d %s %s %s %s", lim, total, B(ferr != nil), B(aerr == nil),
+					c15hex(before.Bytes()), c15hex(after.Bytes())), "true")
+			}
 		}
 
 		// --- guards of Write ------------------------------------------------------------------
@@ -873,4 +904,17 @@ func (c *Ctx) runC15large() {
 		c.Emit("c15.holds.spz_dequant", strings.TrimSpace(fmt.Sprintf("%d %d %d %d %s %s", version, lcse.n, lcse.deg, fb, strings.Join(hexes, " "), ans)), "true")
 		c.c15readersAgree("c15.holds.readers_agree", fmt.Sprintf("spz.%d.sh%d", lcse.n, lcse.deg), c15gzip(stream), c15spzDecode)
 	}
+}
+
+// an io.Writer that accepts `limit` bytes in total and then fails
+type c15failWriter struct{ limit, n int }
+
+func (w *c15failWriter) Write(p []byte) (int, error) {
+	if w.n+len(p) > w.limit {
+		k := w.limit - w.n
+		w.n = w.limit
+		return k, errors.New("destination full")
+	}
+	w.n += len(p)
+	return len(p), nil
 }
